@@ -24,6 +24,7 @@ if [ $suite -ne 0 ] || [ $demo_clean -ne 0 ] || [ $demo_patched -eq 0 ]; then ec
 # run my checks against /repo with the change applied
 cd /verif
 [ -z "$(git -C /repo status --porcelain)" ] || { echo "/repo not clean"; exit 2; }
+EVBAK=$(mktemp -d /verif/target/evbak-XXXXXX); cp -a /verif/evidence/. "$EVBAK/"   # the evidence of runs on a CHANGED tree must never replace the real one
 git -C /repo apply "$S/patch.diff" || exit 2
 results=()
 for c in "${CHECKS[@]}"; do
@@ -35,6 +36,7 @@ for c in "${CHECKS[@]}"; do
   echo "  check $c -> exit $code in ${secs}s  $first"
 done
 git -C /repo checkout -- .
+rm -rf /verif/evidence; mkdir -p /verif/evidence; cp -a "$EVBAK/." /verif/evidence/; rm -rf "$EVBAK"
 rm -rf /verif/replays/*/found
 D=/verif/seeded/$ID-$TAG$V; mkdir -p "$D"
 cp "$S/patch.diff" "$D/patch.diff"; cp "$S/demo.rs" "$D/demo.rs"; cp "$S/notes.md" "$D/notes.md" 2>/dev/null
